@@ -297,7 +297,7 @@ func cmdC17(seed uint64, tier, outdir string) {
 		b := v1Text(r, 4+r.intn(6), vocab)
 		g := 3
 		if r.chance(1, 5) {
-			g = 2 + r.intn(3)
+			g = r.intn(5) // 0 included: New accepts any granularity
 		}
 		sc.printf("g=%d %q / %q\n", g, a, b)
 		src, tgt := searchset.New(a, g), searchset.New(b, g)
